@@ -1039,7 +1039,7 @@ def serialize_val(
         if isinstance(items, list):
             return [
                 serialize_val(
-                    items[ind],
+                    items[ind] if ind < len(items) else None,
                     name,
                     v,
                     mapper=mapper,
